@@ -421,6 +421,8 @@ func msetOpItem0(c *Ctx, id uint64, payload []byte) {
 	b = messageset.AppendFieldEnd(b)
 	size := messageset.SizeField(num) + protowire.SizeTag(messageset.FieldMessage) + protowire.SizeBytes(len(payload))
 	c.Case("mset", "item", []string{HexN(id), HexB(payload)}, []string{HexB(b), HexN(uint64(size))})
+	// Tier T: the same observation recomputed by the translated messageset.go (Gen/MsetGo.v)
+	c.Case("mset", "go_item", []string{HexN(id), HexB(payload)}, []string{HexB(b), HexN(uint64(size))})
 	if size != len(b) {
 		c.PropFail("C47", "item size differs from its encoded length", HexN(id), HexB(payload))
 	}
@@ -458,6 +460,7 @@ func msetOpCItem(c *Ctx, b []byte) {
 			}
 		}()
 		c.Case("mset", "citem", []string{Tok(wl), HexB(b)}, obs)
+		c.Case("mset", "go_citem", []string{Tok(wl), HexB(b)}, obs)
 	}
 }
 
@@ -491,14 +494,17 @@ func msetOpUnknown(c *Ctx, u []byte) {
 func msetOpUnknown0(c *Ctx, u []byte) {
 	size := messageset.SizeUnknown(u)
 	c.Case("mset", "sizeunk", []string{HexB(u)}, []string{HexN(uint64(size))})
+	c.Case("mset", "go_sizeunk", []string{HexB(u)}, []string{HexN(uint64(size))})
 	out, err := messageset.AppendUnknown(nil, u)
 	if err != nil {
 		c.Case("mset", "appunk", []string{HexB(u)}, []string{"err"})
+		c.Case("mset", "go_appunk", []string{HexB(u)}, []string{"err"})
 		c.Stat("appunk:err")
 		return
 	}
 	c.Stat("appunk:ok")
 	c.Case("mset", "appunk", []string{HexB(u)}, []string{"ok", HexB(out)})
+	c.Case("mset", "go_appunk", []string{HexB(u)}, []string{"ok", HexB(out)})
 	if size != len(out) {
 		c.PropFail("C47", "SizeUnknown differs from len(AppendUnknown)", HexB(u))
 	}
